@@ -61,6 +61,8 @@ var FWD = {
   getPrototypeOf: function(t) { return Reflect.getPrototypeOf(t); },
   setPrototypeOf: function(t, p) { return Reflect.setPrototypeOf(t, p); },
 };
+// an existing property of a lazily templated built-in (deleted at reset so that the abstract state starts empty)
+var TMPLKEY = {math: "abs", math2: "abs", json: "parse", global: "escape", regexpctor: "escape"};
 function mkKeys() {
   var m = CFG.keymap, K = {};
   CFG.keys.forEach(function(k) {
@@ -70,6 +72,7 @@ function mkKeys() {
     else if (k === "k") {
       c = m === "str" ? "vk_a" : m === "sym" ? Symbol("k") : m === "idx" ? "0" : m === "idx7" ? "7" :
           m === "big" ? "4294967295" : m === "neg0" ? "-0" : m === "frac" ? "1.5" : m === "wk" ? Symbol.toStringTag :
+          m === "tmpl" ? TMPLKEY[CFG.kind] :
           m === "long" ? "vk_a_rather_long_property_name_to_defeat_small_string_paths" : m === "uni" ? "ключ" : undefined;
     } else c = "vk_" + k;
     if (c === undefined) throw new Error("no mapping for " + k + " under " + m);
@@ -136,6 +139,7 @@ function reset() {
     BASEPROTO[n] = Object.getPrototypeOf(O[n]);
   });
   CFG.objs.forEach(function(n) { if (CFG.proto[n]) Object.setPrototypeOf(O[n], O[CFG.proto[n]]); });
+  if (CFG.keymap === "tmpl" && !Reflect.deleteProperty(O[CFG.objs[0]], KEY.k)) throw new Error("template property not deletable");
   return obs();
 }
 function mkDesc(d) {
